@@ -513,7 +513,10 @@ impl<'r> Gen<'r> {
                     }
                     if k < n {
                         let saved_const = self.constant_only;
-                        let cv = self.expr(st, 0);
+                        // case labels: mostly leaves, a third compound (ternary / logical / arithmetic, with their own
+                        // control flow inside the comparison chain)
+                        let label_depth = if self.rng.chance(1, 3) { 1 + self.rng.below(2) } else { 0 };
+                        let cv = self.expr(st, label_depth);
                         self.constant_only = saved_const;
                         let body = self.switch_body(ty, depth);
                         clauses.push((Some(cv), body));
@@ -644,7 +647,13 @@ impl<'r> Gen<'r> {
                         if self.rng.chance(2, 3) {
                             body.push(Stmt::Break(false));
                         }
-                        clauses.push((Some(Expr::Int(k as u64, k.to_string())), body));
+                        let label = if self.rng.chance(1, 3) {
+                            let d = 1 + self.rng.below(2);
+                            self.expr(Ty::Int, d)
+                        } else {
+                            Expr::Int(k as u64, k.to_string())
+                        };
+                        clauses.push((Some(label), body));
                     }
                     if self.rng.chance(1, 2) {
                         let at = self.rng.below(clauses.len() + 1);
